@@ -101,7 +101,46 @@ def directed_histories(rng, thorough):
                       {"ev": "lookup", "txn": "t2"}, {"ev": "adv", "d": 16}, {"ev": "lookup", "txn": "t3"}, {"ev": "lookup", "txn": "t4"},
                       upd("apply", "D"), {"ev": "lookup", "txn": "t3"}, {"ev": "lookup", "txn": "t5"}]
                 hs.append(h)
-    return hs + (hs_a if thorough else rng.sample(hs_a, 30))
+    # (d) two updates overlapping inside UpdatePoliciesData (both held at the proxy's admin API), a transaction starting
+    #     between the two installs, answered after the second
+    hs_d = []
+    for opa in ("apply", "reload", "revll"):
+        for opb in ("apply", "reload", "revll"):
+            for pre in (0, 1):
+                h = [{"ev": "reset", "label": "A"}]
+                if pre:
+                    h += [upd("apply", "D"), {"ev": "lookup", "txn": "t9"}]
+                h += [{"ev": "lookup", "txn": "t1"},
+                      {"ev": "overlap", "a": upd(opa, "B"), "b": upd(opb, "C"), "inner": [{"ev": "lookup", "txn": "t2"}, {"ev": "lookup", "txn": "t1"}]},
+                      {"ev": "lookup", "txn": "t2"}, {"ev": "lookup", "txn": "t3"}, {"ev": "lookup", "txn": "t1"}, {"ev": "adv", "d": 29},
+                      {"ev": "lookup", "txn": "t2"}, upd("apply", "A"), {"ev": "lookup", "txn": "t3"}, {"ev": "lookup", "txn": "t4"}]
+                hs_d.append(h)
+    # (e) instants off the vacuum's tick grid and late wake-ups: a request late within a tick, a reload after it, the
+    #     response 25..30 s after the request
+    hs_e = []
+    for off in (1, 2, 3, 4):
+        for drift in ([1], [2], [0, 1], [1, 0, 2], [0, 0, 0, 0, 0, 0, 1]):
+            for age in (25, 27, 29, 30):
+                h = [{"ev": "reset", "label": "A", "drift": drift}, {"ev": "lookup", "txn": "t0"}, {"ev": "adv", "d": 10 + off},
+                     {"ev": "lookup", "txn": "t1"}, {"ev": "adv", "d": 1}, upd("apply", "B"), {"ev": "lookup", "txn": "t2"},
+                     {"ev": "adv", "d": age - 1}, {"ev": "lookup", "txn": "t1"}, {"ev": "adv", "d": 30 - age + 1}, {"ev": "lookup", "txn": "t2"},
+                     {"ev": "adv", "d": 7}, {"ev": "lookup", "txn": "t1"}]
+                hs_e.append(h)
+    # (f) transactions through the real SPOE message handler, retry sequences (transaction id != sequence id) across updates
+    hs_f = []
+    for op in ops:
+        for gapd in (0, 5, 29):
+            h = [{"ev": "reset", "label": "A", "handler": True}, {"ev": "hreq", "id": "t1", "seq": "t1"}, {"ev": "hres", "id": "t1", "seq": "t1", "status": 500}]
+            if gapd:
+                h.append({"ev": "adv", "d": gapd})
+            h += [upd(op, "B"), {"ev": "hreq", "id": "t2", "seq": "t1"}, {"ev": "hres", "id": "t2", "seq": "t1", "status": 500},
+                  {"ev": "hreq", "id": "t3", "seq": "t1"}, upd("apply", "C"), {"ev": "hres", "id": "t3", "seq": "t1", "status": 200},
+                  {"ev": "hreq", "id": "t4", "seq": "t4"}, {"ev": "adv", "d": 30}, {"ev": "hres", "id": "t4", "seq": "t4", "status": 200},
+                  {"ev": "adv", "d": 6}, {"ev": "hreq", "id": "t5", "seq": "t1"}, {"ev": "hres", "id": "t5", "seq": "t1", "status": 200}]
+            hs_f.append(h)
+    if thorough:
+        return hs + hs_a + hs_d + hs_e + hs_f
+    return hs + rng.sample(hs_a, 20) + rng.sample(hs_d, 8) + rng.sample(hs_e, 25) + rng.sample(hs_f, 6)
 
 
 def gapify(rng, h):
@@ -114,6 +153,10 @@ def gapify(rng, h):
         x = rng.random()
         if e["ev"] == "lookup" and nxt and nxt["ev"] == "update" and x < 0.5:
             out.append({"ev": "gaplookup", "txn": e["txn"], "at": rng.choice(["pin.before_lock", "pin.before_vacuumkey"]), "inner": [nxt]})
+            i += 2
+            continue
+        if e["ev"] == "update" and nxt and nxt["ev"] == "update" and x < 0.5 and {e["op"], nxt["op"]} <= {"apply", "reload", "revll"}:
+            out.append({"ev": "overlap", "a": e, "b": nxt, "inner": [{"ev": "lookup", "txn": TXNS[11]}]})
             i += 2
             continue
         if e["ev"] == "update" and x < 0.25:
@@ -189,7 +232,8 @@ def execute(ctx, binary, scripts, tag):
 
 
 def has_gap(h):
-    return any("cs" in e or "gap" in e for e in h)
+    """held calls, overlapping updates or late vacuum wake-ups: outside what the model conformance spec PinITrace replays"""
+    return any("cs" in e or "gap" in e for e in h) or any(h[0].get("drift", []))
 
 
 def judge(ctx, binary, traces, tag, seen, scripts):
@@ -271,7 +315,7 @@ def run(ctx):
 
     seen = set()
     # (2) spec -> code: walks of PinI replayed on the real accessor
-    n = 25 if not T else 250
+    n = 15 if not T else 250
     g = ctx.tlc(sd, "GenC11", "GenC11.cfg", workers=1, simulate="num=%d" % n, depth=60, extra=["-seed", str(ctx.seed)],
                 timeout=900, label="behaviour generation")
     walks = tlc_vh_lines(g.out)
@@ -286,15 +330,24 @@ def run(ctx):
     ctx.log("replayed %d TLC walks of PinI" % len(walks))
 
     # (3) code -> spec: random scripts (plain, and with held calls / refused admin calls), directed gap and failure schedules
-    nscripts, nh = (4, 30) if not T else (12, 120)
-    scripts = [{"histories": [rand_history(ctx.rng, T) if j % 3 else gapify(ctx.rng, rand_history(ctx.rng, T)) for j in range(nh)]}
-               for _ in range(nscripts)]
+    nscripts, nh = (3, 30) if not T else (12, 120)
+    def pick(j):
+        h = rand_history(ctx.rng, T)
+        if j % 3 == 0:
+            h = gapify(ctx.rng, h)
+        elif j % 3 == 1:
+            h[0] = dict(h[0], drift=[ctx.rng.choice([0, 0, 1, 2, 3]) for _ in range(ctx.rng.randint(1, 5))])
+        return h
+    scripts = [{"histories": [pick(j) for j in range(nh)]} for _ in range(nscripts)]
     traces = execute(ctx, binary, scripts, "rand")
     ctx.sample({"kind": "recorded-trace", "events": [{a: b for a, b in e.items() if a not in ("pins",)} for e in traces[0][1:12]]})
     judge(ctx, binary, traces, "rand", seen, scripts)
     dscripts = [{"histories": directed_histories(ctx.rng, T)}]
     dtraces = execute(ctx, binary, dscripts, "directed")
     nheld = sum(1 for e in dtraces[0] if "cs" in e or "gap" in e)
+    nvia = sum(1 for e in dtraces[0] if e.get("via"))
+    if nvia == 0 or not any(e.get("gap") == "overlap" for e in dtraces[0]):
+        raise Broken("directed schedules: no handler-level transaction / no overlapping updates recorded (vacuous)")
     nfail = sum(1 for e in dtraces[0] if e.get("ev") == "update" and not e.get("ok"))
     if nheld == 0 or nfail == 0:
         raise Broken("directed schedules: %d held calls, %d failed updates recorded (vacuous)" % (nheld, nfail))
